@@ -23,6 +23,10 @@ type laRun struct {
 	// PanicsAre: property to which kernel panics are attributed ("" = this property)
 	Explain string
 	e2eDone map[string][2]string
+	// KeepReplays: another leg of the same property already stored replay material that must survive
+	KeepReplays bool
+	// CaseBase: first case number used for replay directories
+	CaseBase int
 }
 
 // e2e runs (once) the end-to-end scenario of a stub-dependent kernel.
@@ -104,7 +108,7 @@ func (lr *laRun) finish(res *laResult, extra map[string]interface{}) int {
 	}
 	known := loadKnown()
 	replayBase := filepath.Join(layera.Root(), "replays", prop)
-	os.RemoveAll(replayBase)
+	clearReplaysOnce(prop)
 	var total engine.Stats
 	total.Unsupported = map[string]int{}
 	violations, inconclusive, vacuous, unconfirmed := 0, 0, 0, 0
@@ -113,7 +117,7 @@ func (lr *laRun) finish(res *laResult, extra map[string]interface{}) int {
 	var samples []interface{}
 	var fatal []string
 	validated := 0
-	ci := 0
+	ci := lr.CaseBase
 	perKernel := map[string]interface{}{}
 	for _, kr := range res.Results {
 		if kr.Stats != nil {
